@@ -105,7 +105,8 @@ func (c *Curve) FromCompressed(input []byte) (*Point, error) {
 	if ok != 1 {
 		return nil, curves.ErrInvalidCoordinates.WithMessage("x")
 	}
-	if x.IsZero() == 1 {
+	// only 02||0..0 is the identity's reserved encoding; 03||0..0 is the curve point (0, odd sqrt(b))
+	if x.IsZero() == 1 && sign == 0 {
 		return c.OpIdentity(), nil
 	}
 
